@@ -232,36 +232,35 @@ namespace bloch::runtime {
         }
         if (q >= 0 && q < static_cast<int>(m_measured.size()))
             m_measured[q] = false;
-        // Put qubit q into |0>.
-        // If the state already has amplitude in the |...0> subspace, zero the |...1> subspace
-        // and renormalize. If all amplitude is in |...1>, deterministically move it into
-        // the |...0> subspace (equivalent to an X on a measured |1>), avoiding NaNs.
+        // Put qubit q into |0> the way OpenQASM's reset does: sample which branch the qubit is
+        // in with the Born weights, project onto it, and move a |1> outcome to |0>. Sampling
+        // (rather than post-selecting the |0> branch) keeps the statistics of every other
+        // qubit unchanged when q is entangled with them.
         size_t bit = size_t{1} << q;
         double norm0 = 0.0;
+        double norm1 = 0.0;
         for (size_t i = 0; i < m_state.size(); ++i) {
-            if (!(i & bit))
+            if (i & bit)
+                norm1 += std::norm(m_state[i]);
+            else
                 norm0 += std::norm(m_state[i]);
         }
-
-        if (norm0 == 0.0) {
-            // All amplitude is in the |...1> subspace: swap it into |...0>.
-            for (size_t i = 0; i < m_state.size(); ++i) {
-                if (i & bit) {
-                    size_t j = i ^ bit;  // flip target bit to 0
-                    m_state[j] = m_state[i];
-                    m_state[i] = 0.0;
-                }
-            }
-        } else {
-            // Zero |...1> and renormalize |...0>
-            double inv = 1.0 / std::sqrt(norm0);
-            for (size_t i = 0; i < m_state.size(); ++i) {
-                if (i & bit) {
-                    m_state[i] = 0.0;
-                } else {
-                    m_state[i] *= inv;
-                }
-            }
+        int branch = 0;
+        if (norm1 > 0.0 && norm0 > 0.0) {
+            std::uniform_real_distribution<double> dist(0.0, 1.0);
+            double r = dist(rng);
+            branch = r * (norm0 + norm1) < norm1 ? 1 : 0;
+        } else if (norm1 > 0.0) {
+            branch = 1;
+        }
+        double weight = branch ? norm1 : norm0;
+        double inv = weight > 0.0 ? 1.0 / std::sqrt(weight) : 1.0;
+        for (size_t i = 0; i < m_state.size(); ++i) {
+            if (i & bit)
+                continue;
+            size_t j = i | bit;
+            m_state[i] = (branch ? m_state[j] : m_state[i]) * inv;
+            m_state[j] = 0.0;
         }
 
         if (m_logOps)
